@@ -378,8 +378,14 @@ def check_param(res, mag, uname, unit, order, fmtname):
     res.evaluations += 1
     res.nontrivial += 1
     case = dict(layer="P", mag=mag, unit=uname, order=order, fmt=fmtname)
-    reac = {1: {"A": 1}, 2: {"A": 1, "B": 1}}[order]
+    reac = {0: {"A": 1}, 1: {"A": 1}, 2: {"A": 1, "B": 1}}[order]
     subst = {k: Substance(k, latex_name=k, unicode_name=k, html_name=k) for k in "ABC"}
+    if order == 0:
+        # an equilibrium A = C whose constant is a ratio written in two different units (mM per M, cm per m): dimensionless, but not 1 -
+        # the text shows the magnitude together with the unit it is in
+        from chempy import Equilibrium
+
+        Reaction = lambda reac_, prod_, param_: Equilibrium(reac_, prod_, param_, checks=())
     try:
         r = Reaction(reac, {"C": 1}, float(mag) * unit)
         got = getattr(r, fmtname)(subst, with_param=True) if fmtname != "string" else r.string(with_param=True)
@@ -520,7 +526,7 @@ def check_table(res, mants, exps, form):
 def _param_units():
     from chempy.units import default_units as u
 
-    return {1: [("1/s", 1 / u.s), ("1/min", 1 / u.minute)], 2: [("1/M/s", 1 / u.molar / u.s), ("m3/mol/s", u.m ** 3 / u.mol / u.s), ("dm3/mol/hour", u.dm3 / u.mol / u.hour)]}
+    return {0: [("mM/M", (u.mol / u.m ** 3) / u.molar), ("cm/m", u.cm / u.m)], 1: [("1/s", 1 / u.s), ("1/min", 1 / u.minute)], 2: [("1/M/s", 1 / u.molar / u.s), ("m3/mol/s", u.m ** 3 / u.mol / u.s), ("dm3/mol/hour", u.dm3 / u.mol / u.hour)]}
 
 
 # ------------------------------------------------------------------------------------------------ chunks
